@@ -159,10 +159,10 @@ func (f *FuncValue) typecheck(args ...reflect.Type) {
 // boundaries.
 func Func(fn interface{}) *FuncValue {
 	fv := reflect.ValueOf(fn)
-	ftype := fv.Type()
-	if ftype.Kind() != reflect.Func {
+	if fv.Kind() != reflect.Func {
 		typecheck.Panicf(1, "bigslice.Func: argument to func is a %T, not a func", fn)
 	}
+	ftype := fv.Type()
 	if ftype.NumOut() != 1 || ftype.Out(0) != typeOfSlice {
 		typecheck.Panicf(1, "bigslice.Func: func must return a single bigslice.Slice")
 	}
